@@ -426,6 +426,13 @@ class ArgumentGuard(object):
             return bool(np.array_equal(snap[3], value))
         return isinstance(value, list) and repr(value) == repr(snap[1])
 
+    @staticmethod
+    def text(value):
+        try:
+            return ('%s %r' % (type(value).__name__, value.tolist() if hasattr(value, 'tolist') else value))[:400]
+        except Exception:
+            return repr(value)[:400]
+
     def guard(self, func, label, positional=None):
         """Wrapper of *func*; *positional* maps positional index -> argument name for arguments that may be
         given positionally."""
@@ -455,7 +462,7 @@ class ArgumentGuard(object):
                     owner.by_function[label] = owner.by_function.get(label, 0) + 1
                     if not unchanged(s, value):
                         owner.failures.append({'function': label, 'argument': name,
-                                               'before': repr(s[-1])[:300], 'after': repr(value)[:300]})
+                                               'before': owner.text(s[-1]), 'after': owner.text(value)})
             return out
 
         guarded_call._pvmon_guard = self
